@@ -48,6 +48,13 @@ impl ReplayProtection {
     }
 }
 
+#[cfg(feature = "verif")]
+impl ReplayProtection {
+    pub fn verif_most_recent_sequence(&self) -> u64 {
+        self.most_recent_sequence
+    }
+}
+
 #[cfg(test)]
 mod tests {
     use super::*;
